@@ -385,7 +385,12 @@ def _judge(sc, fault, stats):
     # clause 4: no temporary files after an in-process fault
     if kind in ("cb", "parse", "prov", "undecodable", "oserror"):
         new_in_work = sorted(set(work_after) - set(names))
-        if tmp_after or new_in_work:
+        left = len(tmp_after) + len(new_in_work)
+        if kind == "oserror" and site.split("/")[1] in ("remove", "rename") and left == 1:
+            # the injected error was the refusal to remove/rename that very file
+            stats["leftover_tolerated_failed_remove"] += 1
+            left = 0
+        if left:
             out.append(
                 violation(
                     "C15/tempfiles-left",
